@@ -57,6 +57,7 @@ def _data(rng, shape, kind):
 
 # ----------------------------------------------------------------------------------------- source-axis masks
 _SL = {}
+_S1 = {}
 
 
 def make_src(rng, tier, name=None):
@@ -69,6 +70,17 @@ def make_src(rng, tier, name=None):
         sen = int(rng.choice([a for a in range(nd) if a != src]))
     if rng.random() < 0.7 and shape[src] == 1:
         shape[src] = int(rng.integers(2, 5))
+    one_sensor = False
+    if name in ('ibm', 'wiener'):
+        _S1[name] = _S1.get(name, 0) + 1
+        if _S1[name] % 4 == 0:
+            # every run: a recording with exactly ONE channel on an explicit sensor axis, not kept in the output
+            if nd < 2:
+                nd, shape = 2, shape + [int(rng.integers(1, 7))]
+                src = 0
+            sen = int([a for a in range(nd) if a != src][int(rng.integers(0, nd - 1))])
+            shape[sen] = 1
+            one_sensor = True
     kind = str(rng.choice(['random', 'random', 'integer', 'integer', 'silent', 'zero'], p=[.3, .2, .2, .1, .15, .05]))
     x = _data(rng, shape, kind)
     _SL[name] = _SL.get(name, 0) + 1
@@ -82,7 +94,7 @@ def make_src(rng, tier, name=None):
         idx[other] = 0
         x[tuple(idx)] = 0
     rp = {'fn': name, 'x': x, 'source_axis': _neg(rng, src, nd), 'sensor_axis': None if sen is None else _neg(rng, sen, nd),
-          'keepdims': bool(rng.random() < 0.5), 'perm': [int(v) for v in rng.permutation(nd)],
+          'keepdims': bool(rng.random() < 0.5) and not one_sensor, 'perm': [int(v) for v in rng.permutation(nd)],
           'sel': int(rng.integers(0, 2 ** 31))}
     fail, key, coq = eval_src(rp)
     nm = '%s shape=%s source_axis=%d sensor_axis=%s keepdims=%s %s' % (name, shape, rp['source_axis'], rp['sensor_axis'],
